@@ -1,12 +1,12 @@
 """which translated function groups (tools/gen_code.py → Generated/Code_<group>.lean, proofs in Proofs/Code_<group>.lean,
 statements in Props/Source_<group>.lean) each property's model depends on, and the theorems tying each group to the model"""
-DEPS = {'C01': ['classes', 'simplify', 'shapes', 'lookup', 'values', 'insert'],
+DEPS = {'C01': ['classes', 'dicts', 'simplify', 'shapes', 'lookup', 'values', 'insert'],
         'C02': ['data'],
-        'C03': ['classes', 'simplify', 'shapes', 'values', 'insert', 'wrapmerge'],
-        'C04': ['classes', 'simplify', 'shapes', 'values', 'subset', 'wrapsplit'],
-        'C05': ['classes', 'simplify', 'shapes', 'values', 'insert', 'subset', 'wrapsplit', 'wrapmerge'],
+        'C03': ['classes', 'dicts', 'simplify', 'shapes', 'values', 'insert', 'wrapmerge'],
+        'C04': ['classes', 'dicts', 'simplify', 'shapes', 'values', 'subset', 'wrapsplit'],
+        'C05': ['classes', 'dicts', 'simplify', 'shapes', 'values', 'insert', 'subset', 'wrapsplit', 'wrapmerge'],
         'C06': ['classes', 'simplify'],
-        'C07': ['classes', 'simplify', 'shapes', 'valid'],
+        'C07': ['classes', 'dicts', 'simplify', 'shapes', 'valid'],
         'C08': ['classes', 'lookup'],
         'C10': ['classes', 'valid'],
         'C11': ['stack', 'stackadd'],
@@ -16,6 +16,7 @@ DEPS = {'C01': ['classes', 'simplify', 'shapes', 'lookup', 'values', 'insert'],
 
 GROUP_THEOREMS = {
     'classes': ['get_valid_classes_is_model', 'get_valid_classes_refuses', 'get_multiplicity_is_model'],
+    'dicts': ['make_empty_bases_is_model', 'get_values_and_class_is_lookup'],
     'simplify': ['is_constant_is_model', 'is_repeating_is_model', 'get_const_period_is_model', 'simplify_is_model'],
     'lookup': ['get_meta_index_is_model', 'meta_valid_is_model', 'get_meta_is_model'],
     'valid': ['check_valid_is_model'],
